@@ -22,6 +22,11 @@ func init() {
 	extend("C03", r3ExecutorLast)
 	extend("C03", r3ValidateReadonly)
 	extend("C13", r3ValidateReadonly)
+	// a negative governance parameter: memory keeps the sign, the state stores the absolute value
+	extend("C02", c14GapParamSign)
+	extend("C15", c14GapParamSign)
+	// a veto that refuses unconditionally (or allows unconditionally) is a C08 matter as much as C07's
+	extend("C08", c07GapVetoRefusal)
 }
 
 // --- C02/C03: in a composite per-candidate operation the executing member is the last one ---
@@ -168,10 +173,27 @@ func r3ExecutorLast(c *rep.Ctx) {
 		}
 		ok := true
 		has := false
-		for i, a := range s.Call.Args {
+		args := s.Call.Args
+		// NewCompTxOp(steps...) with a once-defined slice literal
+		if s.Call.Ellipsis.IsValid() && len(args) == 1 {
+			var lit *ast.CompositeLit
+			e := ast.Unparen(args[0])
+			if o := an.ObjOf(s.Fn.Info(), e); o != nil {
+				if rhs, _ := s.Fn.Graph().SingleDef(o); rhs != nil {
+					e = ast.Unparen(rhs)
+				}
+			}
+			lit, _ = e.(*ast.CompositeLit)
+			if lit == nil {
+				c.Undecide("executor-last", key+"|NewCompTxOp", "the members are passed as a slice that is not a once-defined literal")
+				continue
+			}
+			args = lit.Elts
+		}
+		for i, a := range args {
 			if contains(s.Fn, a, 0) {
 				has = true
-				if i != len(s.Call.Args)-1 {
+				if i != len(args)-1 {
 					ok = false
 				}
 			}
